@@ -9,10 +9,11 @@ cdef class QuestionHistory:
 
     cdef cython.dict _history
 
+    @cython.locals(entries=cython.list, kept=cython.list, entry=cython.tuple)
     cpdef void add_question_at_time(self, DNSQuestion question, double now, cython.set known_answers)
 
-    @cython.locals(than=double, previous_question=cython.tuple, previous_known_answers=cython.set)
+    @cython.locals(than=double, entries=cython.list, previous_known_answers=cython.set)
     cpdef bint suppresses(self, DNSQuestion question, double now, cython.set known_answers)
 
-    @cython.locals(than=double, now_known_answers=cython.tuple)
+    @cython.locals(entries=cython.list, entry=cython.tuple)
     cpdef void async_expire(self, double now)
